@@ -118,6 +118,7 @@ P("C03", level_text="Theorems for every configuration, limit, filter and byte st
   "exactly-sized heap blocks under ASan+UBSan; source independence is checked on the implementation directly.",
   level_note="memory safety of the binary is observed by sanitizers, not proved; the 'never past the terminator' clause of zero-terminated readers rests on ASan",
   suites=lambda tier: [S.JsonAnySuite(cfg=DEF), S.MpDeSuite(cfg=DEF, n=1200 if tier == "quick" else 100000), S.FilterSuite(cfg=DEF, n=2500 if tier == "quick" else 100000),
+                       S.JsonDocSuite(cfg=DEF, n=1200 if tier == "quick" else 100000), S.MpDocSuite(cfg=DEF, n=1200 if tier == "quick" else 100000),
                        S.ReuseSuite(cfg=DEF), S.ReuseSuite(cfg=G["tiny2"], n=100 if tier == "quick" else 4000),
                        S.JsonAnySuite(cfg={"arduino": 1}, n=4000 if tier == "quick" else 100000, maxlen=2)] +
   ([S.JsonAnySuite(cfg=CFG_ALL, n=200000), S.JsonAnySuite(cfg=CFG_NOUNI, n=100000)] if tier == "thorough" else [S.JsonAnySuite(cfg=CFG_ALL, n=8000)]))
@@ -276,7 +277,8 @@ P("C05", module="AJ.Props.C05All", extra=[("AJ.Props.C05", ["C05"]), ("AJ.Props.
   "unreported failures and collateral changes; deserialization is run under every single-failure position.",
   level_note="failure inside the deserializers rests on the fault-schedule correspondence (every single-failure position) and its oracles; documents keep their own allocator in these histories (no copy-assignment/swap)",
   suites=lambda tier: [S.FaultSuite(cfg=G["default"]), S.FaultSuite(cfg=G["tiny1"], nh=120 if tier == "quick" else 3000), S.FaultSuite(cfg=G["tiny2"], nh=80 if tier == "quick" else 3000),
-                       S.DeserFaultSuite(cfg=G["default"]), S.DeserFaultSuite(cfg=G["tiny2"], n=300 if tier == "quick" else 20000)] +
+                       S.DeserFaultSuite(cfg=G["default"]), S.DeserFaultSuite(cfg=G["tiny2"], n=300 if tier == "quick" else 20000),
+                       S.JsonDocSuite(cfg=DEF, n=1500 if tier == "quick" else 150000), S.MpDocSuite(cfg=DEF, n=1500 if tier == "quick" else 150000)] +
   ([S.FaultSuite(cfg=G[g], nh=2000) for g in ("id1", "tiny2", "id1c10")] if tier == "thorough" else []),
   partial=["failure inside the deserializers as a theorem"])
 
@@ -292,7 +294,7 @@ P("C06", module="AJ.Props.C06All", extra=[("AJ.Props.C19", ["C06"]), ("AJ.Props.
   level_note="the deserialization memory bound (one maximum-size string + pool granularity + a linear function of the bytes consumed, total requested and peak held) is checked on the instrumented allocator "
   "for sampled and hostile inputs (huge announced lengths/counts, long strings, many tiny elements), not proved; moved-from/swapped documents are covered by the correspondence",
   suites=lambda tier: [S.HistSuite(cfg=G["default"]), S.HistSuite(cfg=G["tiny1"], nh=40 if tier == "quick" else 2000), S.FaultSuite(cfg=G["default"], nh=60 if tier == "quick" else 2000),
-                       S.MpDeSuite(cfg=DEF, n=600 if tier == "quick" else 50000), S.DeserMemSuite(cfg=DEF), S.LimitSuite(cfg=G["len1"]), S.LimitSuite(cfg=G["id1"]),
+                       S.MpDeSuite(cfg=DEF, n=600 if tier == "quick" else 50000), S.DeserMemSuite(cfg=DEF), S.JsonDocSuite(cfg=DEF, n=800 if tier == "quick" else 60000), S.MpDocSuite(cfg=DEF, n=800 if tier == "quick" else 60000), S.LimitSuite(cfg=G["len1"]), S.LimitSuite(cfg=G["id1"]),
                        S.HistSuite(cfg=G["nolonglong"], nh=40 if tier == "quick" else 2000)],
   partial=["deserialization memory bound as a theorem"])
 
